@@ -70,7 +70,7 @@ theorem exSmall_ok : DsOk exSmall := by
   rcases hx with rfl | rfl <;> exact ⟨by decide, by decide, rfl⟩
 
 theorem exSmall_guard : Guard exSmall := by
-  refine ⟨⟨?_, by decide, by unfold NoDot; decide, by decide, by decide⟩, ⟨trivial, trivial⟩, ?_⟩
+  refine ⟨⟨?_, by decide, by unfold NoDot; decide, (by intro e h; cases h), by decide⟩, ⟨trivial, trivial⟩, ?_⟩
   · show (VarsG [_] ∧ _) ∧ True
     refine ⟨⟨⟨⟨by decide, rfl⟩, trivial⟩, by decide⟩, trivial⟩
   · show (AttrsDeep _ ∧ VarsDeep [_]) ∧ True
